@@ -259,7 +259,7 @@ func c17xGenScript(r *rng, length int) c17xScript {
 
 // ---- restore through a watchdog ----------------------------------------------------------------------
 
-var c17HangWait = 3 * time.Second
+var c17HangWait = 15 * time.Second // generous: a slow disk (fsync under load) must not look like a hang; shortened after the first confirmed hang
 var c17Hangs = 0
 
 type c17xBody struct {
